@@ -73,6 +73,15 @@ def circ_universe(r, n_random):
         start = r.randrange(0, 3000)
         cs.append(dict(gene='ENSG0002.1', start=start, id=f'CIRC-ENST0002.1-{start}:{start + offs[-1] + lens[-1]}', offsets=offs,
                        lengths=lens, introns=[], tx='ENST0002.1', symbol='GN2', gpos=f'chr2:{start + 9}:{start + 99}'))
+        if n >= 2 and r.random() < 0.6:
+            # fragments in descending gene order, as parseCIRCexplorer writes them for minus-strand genes: the record's position is
+            # the first listed fragment and the other offsets are negative
+            top = start + offs[-1]
+            roffs = [start + o - top for o in reversed(offs)]
+            cs.append(dict(gene='ENSG0003.1', start=top, id=f'CIRC-ENST0003.1-{start}:{start + offs[-1] + lens[-1]}', offsets=roffs,
+                           lengths=list(reversed(lens)), introns=[], tx='ENST0003.1', symbol='GN3', gpos=f'chr3:{start + 9}:{start + 99}'))
+    cs.append(dict(gene='ENSG0003.1', start=700, id='CIRC-ENST0003.1-400:800', offsets=[0, -300], lengths=[100, 100], introns=[],
+                   tx='ENST0003.1', symbol='GN3', gpos='chr3:1:2'))
     return cs
 
 
